@@ -305,6 +305,7 @@ def getAllDependencies (df : List (Str × List Str)) (name : Str) : List Str :=
 structure FileSt where
   content : Str
   mtime : Nat
+  mode : Nat := 420        -- permission bits; 420 = 0o644, what `open(p, 'w')` gives a new file
   deriving Repr, DecidableEq
 
 /-- a file system: path ↦ state (first match wins), and a clock that advances on every write -/
@@ -321,10 +322,24 @@ def FS.set (fs : FS) (p : Str) (st : FileSt) : FS :=
 def FS.remove (fs : FS) (p : Str) : FS :=
   { fs with files := fs.files.filter (fun e => e.1 ≠ p) }
 
+def defaultMode : Nat := 420
+
+/-- the mode a file has after `open(p, 'w')`: truncating keeps the inode's mode, creating gives the default -/
+def FS.writeMode (fs : FS) (p : Str) : Nat :=
+  match fs.get p with
+  | some st => st.mode
+  | none => defaultMode
+
 /-- `open(p, 'w').write(c)`: new or truncated file, stamped with the advanced clock -/
 def FS.write (fs : FS) (p : Str) (c : Str) : FS :=
   let t := fs.clock + 1
-  { (fs.set p ⟨c, t⟩) with clock := t }
+  { (fs.set p ⟨c, t, fs.writeMode p⟩) with clock := t }
+
+/-- `shutil.copymode(src, dst)`: permission bits only; mtime and content stay -/
+def FS.copymode (fs : FS) (src dst : Str) : FS :=
+  match fs.get src, fs.get dst with
+  | some s, some d => fs.set dst { d with mode := s.mode }
+  | _, _ => fs
 
 /-- `os.replace(tmp, dst)` (tmp exists) -/
 def FS.replace (fs : FS) (tmp dst : Str) : FS :=
@@ -340,6 +355,24 @@ def replaceIfDifferent (fs : FS) (dst tmp : Str) : FS :=
   | _, none => fs                                -- (the tmp file always exists in the callers)
 
 def tmpOf (p : Str) : Str := p ++ ['~']
+
+/-- the file part of `do_conf_file(src, dst, …)` as at HEAD: write `dst~`, `shutil.copymode(src, dst~)`,
+then `replace_if_different(dst, dst~)` — the comparison looks at contents only -/
+def doConfFile (fs : FS) (src dst : Str) (c : Str) : FS :=
+  replaceIfDifferent ((fs.write (tmpOf dst) c).copymode src (tmpOf dst)) dst (tmpOf dst)
+
+/-- on record, *not* the code: a `replace_if_different` that also treats a mode mismatch as "different" … -/
+def replaceIfDifferentModeSensitive (fs : FS) (dst tmp : Str) : FS :=
+  match fs.get dst, fs.get tmp with
+  | some d, some t => if d.content = t.content ∧ d.mode = t.mode then fs.remove tmp else fs.replace tmp dst
+  | none, some _ => fs.replace tmp dst
+  | _, none => fs
+
+/-- … combined with the swapped order (replace first, `copymode(src, dst)` afterwards): the temporary has
+the default mode, the existing output the template's mode, so an unchanged output of a template with a
+non-default mode is replaced on every run -/
+def doConfFileSwapped (fs : FS) (src dst : Str) (c : Str) : FS :=
+  (replaceIfDifferentModeSensitive (fs.write (tmpOf dst) c) dst (tmpOf dst)).copymode src dst
 
 /-- the three ways configure-time writers put text on disk -/
 inductive Writer where
